@@ -277,8 +277,13 @@ fn sector(q: P2) -> (i32, bool) {
     (s, r * off.cos() > D_EDGE)
 }
 
-/// min barycentric coordinate of q in the triangle its sector/side designates (harness' own construction)
+/// (min barycentric coordinate of q in the triangle its sector/side designates, distance to that triangle's nearest corner)
+/// - the harness' own construction of the 10 + 10 triangles
 fn tri_margin(q: P2) -> f64 {
+    tri_margin_and_corner_distance(q).0
+}
+
+fn tri_margin_and_corner_distance(q: P2) -> (f64, f64) {
     let (s, beyond) = sector(q);
     let quint = ((s + 1) / 2) % 5;
     let amid = (72.0 * quint as f64).to_radians();
@@ -291,16 +296,31 @@ fn tri_margin(q: P2) -> f64 {
     let det = (tri[1][1] - tri[2][1]) * (tri[0][0] - tri[2][0]) + (tri[2][0] - tri[1][0]) * (tri[0][1] - tri[2][1]);
     let b0 = ((tri[1][1] - tri[2][1]) * (q[0] - tri[2][0]) + (tri[2][0] - tri[1][0]) * (q[1] - tri[2][1])) / det;
     let b1 = ((tri[2][1] - tri[0][1]) * (q[0] - tri[2][0]) + (tri[0][0] - tri[2][0]) * (q[1] - tri[2][1])) / det;
-    b0.min(b1).min(1.0 - b0 - b1)
+    let corner = tri.iter().map(|c| ((q[0] - c[0]).powi(2) + (q[1] - c[1]).powi(2)).sqrt()).fold(f64::INFINITY, f64::min);
+    (b0.min(b1).min(1.0 - b0 - b1), corner)
 }
 
 pub fn check_jacobian(run: &mut Run, q: P2, face: u8, class: &str) {
-    let h = 1e-6;
+    // the stencil shrinks towards the corners of the projection's triangles (face centre, edge midpoints, face vertices), so
+    // that locations as close as 1e-6 to them are measured too
+    let (margin, corner) = tri_margin_and_corner_distance(q);
+    if corner < 1e-6 {
+        // below this the differences would be smaller than 1e4 x the absolute rounding noise of the projection itself (~3e-14)
+        run.count("stencils.skipped_closer_than_1e-6_to_a_triangle_corner");
+        return;
+    }
+    let h = (0.01 * corner).clamp(1e-8, 1e-6); // h / corner <= 0.01: the map is conical at the corners, truncation ~ (h / r)^2
     let pts = [[q[0] + h, q[1]], [q[0] - h, q[1]], [q[0], q[1] + h], [q[0], q[1] - h]];
     let s0 = sector(q);
-    if pts.iter().any(|p| sector(*p) != s0) || tri_margin(q) < 1e-3 || pts.iter().any(|p| tri_margin(*p) < 5e-4) {
+    // all stencil points must lie in the same triangle: same sector, same side of the face edge, and (beyond the edge, where
+    // the map degenerates outside the reflected triangle) safely inside that triangle
+    let outside = if s0.1 { margin < 1e-3 || pts.iter().any(|p| tri_margin(*p) < 5e-4) } else { margin <= 0.0 || pts.iter().any(|p| tri_margin(*p) <= 0.0) };
+    if pts.iter().any(|p| sector(*p) != s0) || outside {
         run.count("stencils.skipped_straddling_seam_or_edge_or_outside_margin");
         return;
+    }
+    if corner < 1e-4 {
+        run.count("stencils.within_1e-4_of_a_triangle_corner");
     }
     run.evaluations += 1;
     let case = || json!({"q": [hx(q[0]), hx(q[1])], "q_dec": q, "face": face, "class": class, "beyond_edge": s0.1});
@@ -390,9 +410,17 @@ fn margin_point(rng: &mut Rng) -> (P2, &'static str) {
     // a point in the face or in the reflected margin beyond an edge, log-concentrated at hostile places
     let quint = rng.below(5) as f64;
     let amid = (72.0 * quint).to_radians();
-    match rng.below(6) {
+    match rng.below(8) {
         0 => (pentagon_point(rng.range(0.0, std::f64::consts::TAU), rng.f().sqrt() * 0.999), "jacobian.face_uniform"),
-        1 => (pentagon_point(rng.range(0.0, std::f64::consts::TAU), rng.log10(0.0, 5.0)), "jacobian.near_centre"),
+        1 => (pentagon_point(rng.range(0.0, std::f64::consts::TAU), rng.log10(0.0, 6.5)), "jacobian.near_centre"),
+        5 => {
+            // next to a face vertex or an edge midpoint, from inside the face
+            let k = rng.below(5) as f64;
+            let corner = if rng.chance(0.5) { pentagon_point((36.0 + 72.0 * k).to_radians(), 1.0) } else { pentagon_point((72.0 * k).to_radians(), 1.0) };
+            let eps = rng.log10(1.0, 6.5);
+            let t = rng.range(0.0, std::f64::consts::TAU);
+            ([corner[0] + eps * t.cos(), corner[1] + eps * t.sin()], "jacobian.near_vertex_or_edge_midpoint")
+        }
         2 => {
             let az = (36.0 * rng.below(10) as f64).to_radians() + rng.log10(1.0, 5.0) * rng.sign();
             (pentagon_point(az, rng.range(0.02, 0.99)), "jacobian.near_seam")
